@@ -43,12 +43,12 @@ META = {
             "propext, Classical.choice, Quot.sound; the hand-written model is tied to the Rust code only by the "
             "correspondence streams; f64 utilisation test and 1.5x growth are modelled in exact arithmetic (equal "
             "below 2^51 cells); scalar payloads and Rc identity are not part of the cell rendering (the collector "
-            "never looks at them).",
+            "never looks at them). ROUND 5 (WF-stack connected to the heap simulation): the bytecode verifier is VALUE-TYPED (abstract cells any | val | argc n: PUSHACC and PUSHIMM of a value push val, CONS pops two typed cells, CALL/TCALL need argc n over n typed cells, MOV never loads through a Ptr, MOVIMM loads a value, HALT is the last cell; 0 rejects on every real code object and on the compiler model's output) and WF-stack (Lemmas/StackWF*.lean) is re-proved for it for all 16 opcodes: val-typed temporaries, argument blocks and the argument cells of every frame hold values (IsValue = plainGlob, the notion of GoodI), acc holds a value, a frame has at least argNeed argument cells (ENTER compares argc with the formals of the code it runs). stackDisc_of_wfs (Lemmas/StackDiscOfWFS.lean) derives ALL SIX clauses of StackDisc from WFS (concreteLawsV ext ecl) s K; vmOk_reaches shows VmOk = GoodI /\ (WFS \/ halted) is an invariant of the REAL machine (run_one over concreteOps, run_gc = cgc): the guards of the machine the generic WF-stack theorem runs on (vops: guarded callee, value-guarded global/environment reads and VPUSH) are invisible on GoodI states (step_vops). The *_wf theorems restate the property WITHOUT StackDiscAlong: hypotheses = ExtLaws, ExtGood, ExtCodeLawsV (unmodelled builtins / eval compiler / VPUSH keep the value-typed code invariant CInvG IsValue), VmOk of the INITIAL state, SizeBounded, and CalleeOkAlong: at every reachable CALL/TCALL/ENTER site a closure / bare-lambda callee designates PROCEDURE code, not an entry lambda (oracle callee-ok of the C04 bytecode-verifier stream). CalleeOkAlong is NOT derived: it is a reachability fact (closures are built by CLOSURE from compile_lambda output; no value refers to an entry lambda) that needs two more heap-invariant clauses preserved by the unmodelled builtins. Non-vacuity: Demo.sHalt_vmOk. The safe-side-conditions stream also evaluates the value-typed frame of the current instruction on every real state (Driver/SimGood.typedCheck).",
     "technique": "Lean 4 proof (mark = reachability, GC safety, heap invariant) + model-vs-implementation correspondence on real "
                  "heap snapshots and API sequences + schedule exploration on the implementation",
 }
 MODULE = "Marwood.Proofs.C03"
-THEOREMS = ["Marwood.Proofs.C03." + t for t in ['mark_computes_reachable', 'mark_fuel_adequate', 'runGc_fuel_adequate', 'runGc_preserves_reachable', 'runGc_skipped_id', 'runGc_preserves_observation', 'new_wf', 'alloc_preserves_wf', 'put_preserves_wf', 'maybePut_preserves_wf', 'free_preserves_wf', 'grow_preserves_wf', 'mark_preserves_wfcore', 'runGc_preserves_wf', 'witness_ok', 'unfixed_marker_breaks_wf', 'fixed_marker_keeps_wf', 'unfixed_marker_allocates_cell_twice', 'fixed_marker_allocates_each_cell_once', 'runSched_pureN', 'gc_unobservable_partial', 'gc_unobservable_value_partial', 'demo_sim', 'sHalt_safe', 'run_one_preserves_wf', 'run_gc_preserves_good', 'gc_unobservable', 'gc_unobservable_value', 'gc_unobservable_value_eval']] + ["Marwood.Lemmas.Sim." + t for t in ['cgc_sim', 'cput_sim', 'putNew_sim', 'step_sim', 'execSim_all', 'activationLaw', 'builtinLaw_of_ext', 'sim_refl', 'readObs_rel', 'eq_agree']] + ["Marwood.Lemmas.Good." + t for t in ['good_step', 'good_gc', 'safe_of_good', 'goodI_reaches', 'hg_exec', 'roots_of_sim', 'prepare_goodI', 'cput_hg', 'putNew_hg', 'putV_hg', 'maybePutV_hg', 'envPut_hg', 'globPut_hg', 'makeClosure_hg', 'makeActivation_hg', 'newCont_hg', 'hg_mov', 'hg_movImm', 'hg_cons', 'hg_vpush', 'hg_closure', 'hg_varArg', 'hg_call', 'hg_tcall', 'hg_enter', 'hg_ret', 'hg_jmp', 'hg_jnt', 'hg_push', 'hg_pushImm', 'hg_pushAcc', 'hg_halt', 'Demo.sHalt_goodI', 'Demo.sHalt_sizeBounded', 'Demo.sHalt_discAlong']]
+THEOREMS = ["Marwood.Proofs.C03." + t for t in ['mark_computes_reachable', 'mark_fuel_adequate', 'runGc_fuel_adequate', 'runGc_preserves_reachable', 'runGc_skipped_id', 'runGc_preserves_observation', 'new_wf', 'alloc_preserves_wf', 'put_preserves_wf', 'maybePut_preserves_wf', 'free_preserves_wf', 'grow_preserves_wf', 'mark_preserves_wfcore', 'runGc_preserves_wf', 'witness_ok', 'unfixed_marker_breaks_wf', 'fixed_marker_keeps_wf', 'unfixed_marker_allocates_cell_twice', 'fixed_marker_allocates_each_cell_once', 'runSched_pureN', 'gc_unobservable_partial', 'gc_unobservable_value_partial', 'demo_sim', 'sHalt_safe', 'run_one_preserves_wf', 'run_gc_preserves_good', 'gc_unobservable', 'gc_unobservable_value', 'gc_unobservable_value_eval']] + ["Marwood.Lemmas.Sim." + t for t in ['cgc_sim', 'cput_sim', 'putNew_sim', 'step_sim', 'execSim_all', 'activationLaw', 'builtinLaw_of_ext', 'sim_refl', 'readObs_rel', 'eq_agree']] + ["Marwood.Lemmas.Good." + t for t in ['good_step', 'good_gc', 'safe_of_good', 'goodI_reaches', 'hg_exec', 'roots_of_sim', 'prepare_goodI', 'cput_hg', 'putNew_hg', 'putV_hg', 'maybePutV_hg', 'envPut_hg', 'globPut_hg', 'makeClosure_hg', 'makeActivation_hg', 'newCont_hg', 'hg_mov', 'hg_movImm', 'hg_cons', 'hg_vpush', 'hg_closure', 'hg_varArg', 'hg_call', 'hg_tcall', 'hg_enter', 'hg_ret', 'hg_jmp', 'hg_jnt', 'hg_push', 'hg_pushImm', 'hg_pushAcc', 'hg_halt', 'Demo.sHalt_goodI', 'Demo.sHalt_sizeBounded', 'Demo.sHalt_discAlong']] + ['Marwood.Proofs.C03.gc_unobservable_wf', 'Marwood.Proofs.C03.gc_unobservable_value_wf', 'Marwood.Proofs.C03.run_one_preserves_vmOk', 'Marwood.Lemmas.Good.stackDisc_of_wfs', 'Marwood.Lemmas.Good.step_vops', 'Marwood.Lemmas.Good.vmOk_step', 'Marwood.Lemmas.Good.vmOk_gc', 'Marwood.Lemmas.Good.vmOk_reaches', 'Marwood.Lemmas.Good.wfs_reaches', 'Marwood.Lemmas.Good.stackDiscAlong_of_wfs', 'Marwood.Lemmas.Good.safe_of_vmOk', 'Marwood.Vm.Concrete.concreteLawsV', 'Marwood.Vm.Concrete.cgc_gcLawsV', 'Marwood.Vm.step_preserves', 'Marwood.Vm.step_wr', 'Marwood.Lemmas.Good.Demo.sHalt_vmOk', 'Marwood.Lemmas.Good.Demo.sHalt_calleeOkAlong', 'Marwood.Proofs.C13.failingExt_codeLawsV']
 
 
 def simstep_info(req):
